@@ -324,8 +324,8 @@ func (c *regexpSimplifyChecker) walkCharClassArgs(args []syntax.Expr) {
 	// `{` has no special meaning inside a char class.
 	defer func(n int) { c.literalBraces = c.literalBraces[:n] }(len(c.literalBraces))
 	for i, e := range args {
-		if e.Op == syntax.OpCharRange && i+1 < len(args) && args[i+1].Op == syntax.OpChar && args[i+1].Value == "-" {
-			// Don't expand `a-a` in `[a-a-c]`: the following `-` would form a new range.
+		if e.Op == syntax.OpCharRange && i+1 < len(args) && strings.HasPrefix(args[i+1].Value, "-") {
+			// Don't expand `a-a` in `[a-a-c]` or `[a-a--c]`: the following `-` would form a new range.
 			c.out.WriteString(e.Value)
 			continue
 		}
